@@ -43,9 +43,16 @@ def run_one(job):
     w = ws.mkws('sc')
     try:
         scen.materialise(w, sc['tree0'], sc['series'], [('-R' if pt.get('rev') else '') for pt in sc['series']])
+        first, names_before = 0, ()
+        if cfg.get('after1'):
+            # an earlier invocation already applied the first patch (prior applied state)
+            rc0, so0, se0 = ws.push(w, ['1', '-q', '--threads', threads, '--backup', 'never'])
+            if rc0 != 0:
+                return [('crash' if ws.crashed(rc0) else 'exit', 'the preparatory push of patch 1 failed: %s' % se0[-200:])], rc0, se0[-300:]
+            first, names_before = 1, (scen.patch_name(1),)
         rc, so, se = ws.push(w, scen.flags(cfg, threads, extra or ('-q',)))
         snap = ws.snapshot(w)
-        probs = scen.compare(snap, sc, out, cfg, rc, se)
+        probs = scen.compare(snap, sc, out, cfg, rc, se, first, names_before)
         if out['backups'] and not probs:
             # C08 pop simulation: newest first; result must be the tree before the oldest backed-up patch
             oldest = min(b['patch'] for b in out['backups'])
@@ -100,6 +107,10 @@ def check_scenarios(prop, tier):
                     continue
                 # one configuration per scenario (rotating), both drivers
                 o = sc['outs'][(li + seed()) % len(sc['outs'])]
+                if prop == 'C08' and sc.get('outsAfter1') and li % 3 == 0:
+                    # prior applied state: patch 1 was pushed by an earlier invocation
+                    o = sc['outsAfter1'][(li + seed()) % len(sc['outsAfter1'])]
+                    o = {'cfg': dict(o['cfg'], after1=True), 'out': o['out']}
                 for threads in (1, 2 + (li % 3)):
                     jobs.append((sc, o['cfg'], o['out'], threads, None)); metas.append((li, threads))
             with Pool(12) as pool:
